@@ -34,6 +34,12 @@ StringTokenizer::StringTokenizer(const std::string& s, const std::string& delimi
       }
     }
   }
+  else if (delimiters.empty())
+  {
+    // An empty solid delimiter is found at every position without consuming
+    // anything (the loop below would never advance): the whole string is one token.
+    tokens_.push_back(s);
+  }
   else
   {
     string::size_type index = 0;
